@@ -337,30 +337,7 @@ impl EncodingVersion for EncodingVersion1 {
         deserializer: &mut XTypesDeserializer<'a, E, Self>,
         dynamic_data: &mut DynamicData,
     ) -> XTypesResult<()> {
-        let dynamic_type = dynamic_data.r#type();
-        // Deserialize the discriminator
-        let disc_member = dynamic_type.get_member_by_index(0)?;
-        Self::deserialize_mmember(deserializer, disc_member, dynamic_data)?;
-
-        // The discriminator value represents the id of a member
-        let disc_id = get_discriminator_id_as_i32(dynamic_data)?;
-
-        let mut default_member = None;
-        for member_index in 0..dynamic_type.get_member_count() {
-            let member = dynamic_type.get_member_by_index(member_index)?;
-            // Deserialize the member based on its discriminator
-            if member.descriptor.label.contains(&disc_id) {
-                return Self::deserialize_mmember(deserializer, member, dynamic_data);
-            }
-            if member.descriptor.is_default_label {
-                default_member = Some(member);
-            }
-        }
-        if let Some(member) = default_member {
-            return Self::deserialize_mmember(deserializer, member, dynamic_data);
-        }
-
-        Err(XTypesError::InvalidData)
+        deserializer.deserialize_munion_members(dynamic_data)
     }
 
     /// Extensibility APPENDABLE (Collection or Aggregated types), version 1
@@ -499,9 +476,8 @@ impl EncodingVersion for EncodingVersion2 {
         deserializer: &mut XTypesDeserializer<'a, E, Self>,
         dynamic_data: &mut DynamicData,
     ) -> XTypesResult<()> {
-        let _dheader = deserializer.deserialize_primitive_type::<u32>()?;
-        deserializer.deserialize_members(dynamic_data)?;
-        Ok(())
+        let dheader = deserializer.deserialize_primitive_type::<u32>()?;
+        deserializer.deserialize_delimited(dheader, |d| d.deserialize_members(dynamic_data))
     }
 
     /// Member of mutable aggregated type (structure, union), version 2 encoding
@@ -545,32 +521,8 @@ impl EncodingVersion for EncodingVersion2 {
         deserializer: &mut XTypesDeserializer<'a, E, Self>,
         dynamic_data: &mut DynamicData,
     ) -> XTypesResult<()> {
-        let _dheader = deserializer.deserialize_primitive_type::<u32>();
-
-        let dynamic_type = dynamic_data.r#type();
-        // Deserialize the discriminator
-        let disc_member = dynamic_type.get_member_by_index(0)?;
-        Self::deserialize_mmember(deserializer, disc_member, dynamic_data)?;
-
-        // The discriminator value represents the id of a member
-        let disc_id = get_discriminator_id_as_i32(dynamic_data)?;
-
-        let mut default_member = None;
-        for member_index in 0..dynamic_type.get_member_count() {
-            let member = dynamic_type.get_member_by_index(member_index)?;
-            // Deserialize the member based on its discriminator
-            if member.descriptor.label.contains(&disc_id) {
-                return Self::deserialize_mmember(deserializer, member, dynamic_data);
-            }
-            if member.descriptor.is_default_label {
-                default_member = Some(member);
-            }
-        }
-        if let Some(member) = default_member {
-            return Self::deserialize_mmember(deserializer, member, dynamic_data);
-        }
-
-        Err(XTypesError::InvalidData)
+        let dheader = deserializer.deserialize_primitive_type::<u32>()?;
+        deserializer.deserialize_delimited(dheader, |d| d.deserialize_munion_members(dynamic_data))
     }
 
     /// Extensibility APPENDABLE (Collection or Aggregated types), version 2
@@ -583,8 +535,8 @@ impl EncodingVersion for EncodingVersion2 {
         deserializer: &mut XTypesDeserializer<'a, E, Self>,
         dynamic_data: &mut DynamicData,
     ) -> XTypesResult<()> {
-        let _dheader = deserializer.deserialize_primitive_type::<u32>();
-        deserializer.deserialize_fstruct_type(dynamic_data)
+        let dheader = deserializer.deserialize_primitive_type::<u32>()?;
+        deserializer.deserialize_delimited(dheader, |d| d.deserialize_fstruct_type(dynamic_data))
     }
 
     /// Extensibility APPENDABLE union, version 2 encoding: DHEADER followed by the FINAL form
@@ -592,8 +544,8 @@ impl EncodingVersion for EncodingVersion2 {
         deserializer: &mut XTypesDeserializer<'a, E, Self>,
         dynamic_data: &mut DynamicData,
     ) -> XTypesResult<()> {
-        let _dheader = deserializer.deserialize_primitive_type::<u32>()?;
-        deserializer.deserialize_funion_type(dynamic_data)
+        let dheader = deserializer.deserialize_primitive_type::<u32>()?;
+        deserializer.deserialize_delimited(dheader, |d| d.deserialize_funion_type(dynamic_data))
     }
 }
 
@@ -648,6 +600,8 @@ pub fn deserialize_top_level_type_from_representation_identifier<'a>(
 
 struct XTypesDeserializer<'a, E, V> {
     reader: Reader<'a>,
+    /// Number of aggregated objects being deserialized around the current position
+    nesting: usize,
     _endianness: E,
     _encoding_version: V,
 }
@@ -683,6 +637,7 @@ impl<'a, E: EndiannessRead, V: EncodingVersion> XTypesDeserializer<'a, E, V> {
     fn new(buffer: &'a [u8], encoding_version: V, endianness: E) -> Self {
         Self {
             reader: Reader { buffer, pos: 0 },
+            nesting: 0,
             _endianness: endianness,
             _encoding_version: encoding_version,
         }
@@ -696,6 +651,59 @@ impl<'a, E: EndiannessRead, V: EncodingVersion> XTypesDeserializer<'a, E, V> {
             V::deserialize_mmember(self, member, dynamic_data)?;
         }
         Ok(())
+    }
+
+    /// Serialization rule: { O.disc : MMEMBER } { O.selected_member : MMEMBER }?
+    fn deserialize_munion_members(&mut self, dynamic_data: &mut DynamicData) -> XTypesResult<()> {
+        let dynamic_type = dynamic_data.r#type();
+        // Deserialize the discriminator
+        let disc_member = dynamic_type.get_member_by_index(0)?;
+        V::deserialize_mmember(self, disc_member, dynamic_data)?;
+
+        // The discriminator value represents the id of a member
+        let disc_id = get_discriminator_id_as_i32(dynamic_data)?;
+
+        let mut default_member = None;
+        for member_index in 0..dynamic_type.get_member_count() {
+            let member = dynamic_type.get_member_by_index(member_index)?;
+            // Deserialize the member based on its discriminator
+            if member.descriptor.label.contains(&disc_id) {
+                return V::deserialize_mmember(self, member, dynamic_data);
+            }
+            if member.descriptor.is_default_label {
+                default_member = Some(member);
+            }
+        }
+        if let Some(member) = default_member {
+            return V::deserialize_mmember(self, member, dynamic_data);
+        }
+
+        Err(XTypesError::InvalidData)
+    }
+
+    /// Deserializes an object delimited by a DHEADER. Only the bytes the header announces are visible while the
+    /// object is read, so members the writer did not send are missing rather than taken from what follows the
+    /// object, and reading continues after the object, so members this reader does not know are skipped
+    fn deserialize_delimited(
+        &mut self,
+        length: u32,
+        f: impl FnOnce(&mut Self) -> XTypesResult<()>,
+    ) -> XTypesResult<()> {
+        let buffer = self.reader.buffer;
+        let end = if self.nesting > 1 {
+            core::cmp::min(
+                self.reader.pos.saturating_add(length as usize),
+                buffer.len(),
+            )
+        } else {
+            // The outermost object extends to the end of the payload
+            buffer.len()
+        };
+        self.reader.buffer = &buffer[..end];
+        let result = f(self);
+        self.reader.buffer = buffer;
+        self.reader.pos = end;
+        result
     }
 
     /// Serialization rule: { O[i] : O.element_type }*
@@ -839,6 +847,16 @@ impl<'a, E: EndiannessRead, V: EncodingVersion> XTypesDeserializer<'a, E, V> {
 
     /// Serialization rule: { O : AsNested(O.type) }
     fn deserialize_as_nested<'b>(
+        &mut self,
+        dynamic_type: DynamicType<'b>,
+    ) -> XTypesResult<DynamicData<'b>> {
+        self.nesting += 1;
+        let result = self.deserialize_aggregated_type(dynamic_type);
+        self.nesting -= 1;
+        result
+    }
+
+    fn deserialize_aggregated_type<'b>(
         &mut self,
         dynamic_type: DynamicType<'b>,
     ) -> XTypesResult<DynamicData<'b>> {
